@@ -930,6 +930,68 @@ class BF:
                     return self.elem_ty(("tmp",))
         return ""
 
+    # ---------------------------------------------------------------------------------------- overflow sites
+    TAINT = re.compile(r"(^|::)(unpack|unpack_\w+|from_le_bytes|from_be_bytes|from_ne_bytes|from_str_radix|parse)$|Into>::into$|TryInto>::try_into$")
+
+    def tainted(self, op):
+        """The operand's value comes from decoded input (a varint / fixed-width decode or a conversion of one)."""
+        if op.get("k") not in ("copy", "move"):
+            return False
+        return any(s_["k"] == "call" and self.TAINT.search(s_["callee"]) for s_ in P.origins(self.fn, op))
+
+    def overflow_sites(self):
+        """Overflow asserts (`a + b`, `a - b`, `a * b` on usize/u64) where an operand is decoded input."""
+        out = []
+        for b in self.fn.blocks:
+            if b.cleanup:
+                continue
+            t = b.term
+            if t["t"] != "assert" or "Overflow(" not in t.get("msg", ""):
+                continue
+            st = next((st_ for st_ in reversed(b.st) if st_["s"] == "=" and st_["rv"]["r"] == "bin" and st_["rv"]["op"].endswith("WithOverflow")), None)
+            if st is None:
+                continue
+            a, c = st["rv"]["a"], st["rv"]["b"]
+            if not (self.tainted(a) or self.tainted(c)):
+                continue
+            out.append({"pt": P.term_pt(self.fn, b.idx), "op": st["rv"]["op"][:3], "a": a, "b": c,
+                        "ta": self.op_term(a), "tb": self.op_term(c)})
+        return out
+
+    def bounded(self, op, site):
+        """A decoded operand is bounded when some dominating comparison caps it by a buffer length or a constant, or its
+        construction does (u8/u16/u32 widths, min, %, &)."""
+        t = self.op_term(op)
+        if t[0] == "c":
+            return "constant"
+        base, _k = self.lin(t)
+        if base is None:
+            return "constant"
+        if base[0] == "len":
+            return "a buffer length"
+        ty = self._op_ty(op)
+        if ty in ("u8", "u16", "u32"):
+            return "a %s" % ty
+        for (uop, u) in self.upper_facts(base) + self.value_facts(base, site):
+            if self.lin(u)[0] is None or self.lin(u)[0][0] == "len":
+                return "bounded by construction (%s %s)" % (uop, named(self.fn, u))
+        for (a, op_, b, edge) in self.dominating_facts(site):
+            for (fa, fop, fb) in self._orient(a, op_, b):
+                if self.lin(fa)[0] == base:
+                    ub = self.lin(fb)[0]
+                    if ub is None or ub[0] == "len":
+                        return "guard %s %s %s on bb%d[%s]" % (named(self.fn, fa), fop, named(self.fn, fb), edge[0], edge[1])
+        if not self.tainted(op):
+            return "not decoded input"
+        return None
+
+    def decide_overflow(self, s):
+        if s["op"] in ("Add", "Mul"):
+            ra, rb = self.bounded(s["a"], s["pt"]), self.bounded(s["b"], s["pt"])
+            return (ra and rb) and "%s; %s" % (ra, rb) or None
+        # a - b: b <= a
+        return self.prove(s["tb"], False, s["ta"], s["pt"])
+
     def range_agg(self, op):
         if op.get("k") not in ("copy", "move"):
             return None
